@@ -264,6 +264,43 @@ theorem oidc_entry_identity {fixed : Bool} {td : String} {expected : List String
   · simp at h
   · rename_i tok htok; exact ⟨tok, htok, h⟩
 
+/-- Totality over the way the authenticator was CONSTRUCTED: also with a nil mesh holder (istiod's `RunCA`
+    before fix cb98066) the fixed code answers every request with a result, never a panic. -/
+theorem oidc_entry_holder_total (holder : Option String) (expected : List String) (t : Transport) (authVals : List String)
+    (verify : String → OidcTok) : oidcEntryH true holder expected t authVals verify ≠ .crash := by
+  unfold oidcEntryH
+  cases holder with
+  | some td => exact oidc_entry_total td expected t authVals verify
+  | none =>
+    simp only
+    split
+    · simp
+    · intro hc
+      exact oidc_entry_total "" expected t authVals verify hc
+
+/-- An authenticator without mesh config authenticates nobody (there is no trust domain to issue in). -/
+theorem oidc_nil_holder_never_authenticates (fixed : Bool) (expected : List String) (t : Transport) (authVals : List String)
+    (verify : String → OidcTok) (c : Caller) : oidcEntryH fixed none expected t authVals verify ≠ .ok c := by
+  unfold oidcEntryH
+  simp only
+  split
+  · split <;> simp
+  · rename_i r hne
+    intro h
+    exact hne c h
+
+/-- Finding (fixed by cb98066): with the nil holder of `RunCA` a VALID token - verified, well-formed sub,
+    matching audience - crashed the request (nil dereference, no recovery interceptor), while every invalid
+    token got its error. -/
+theorem oidc_nil_holder_crash_witness_unfixed :
+    oidcEntryH false none ["istio-ca"] .grpc ["Bearer T"]
+      (fun t => if t = "T" then .claims "system:serviceaccount:ns1:sa1" ["istio-ca"] else .rejected) = .crash ∧
+    oidcEntryH true none ["istio-ca"] .grpc ["Bearer T"]
+      (fun t => if t = "T" then .claims "system:serviceaccount:ns1:sa1" ["istio-ca"] else .rejected) = .err ∧
+    oidcEntryH false none ["istio-ca"] .grpc ["Bearer X"]
+      (fun t => if t = "T" then .claims "system:serviceaccount:ns1:sa1" ["istio-ca"] else .rejected) = .err := by
+  decide
+
 /-- Which token is validated: gRPC takes the first `Bearer ` value, so a later one never matters. -/
 theorem grpc_first_bearer_wins (tok : String) (rest : List String) :
     extractToken .grpc (("Bearer " ++ tok) :: rest) = some tok := by
@@ -622,8 +659,9 @@ theorem bundle_without_x509_entry_refused (keys : List BundleKey) (h : ∀ k ∈
       exact ih (fun k' hk' => h k' (List.mem_cons_of_mem _ hk'))
   simp [bundleRoots, hl]
 
-/-- Every registered root of the running server comes from a listed pool, or is the single certificate
-    of an X.509-SVID entry of a federated trust domain's bundle - registered for THAT trust domain. -/
+/-- (About the harness' composition `resolvePools`, not about istiod - see the scope note in Authn.lean.)
+    Every root registered that way comes from a listed pool, or is the single certificate of an X.509-SVID
+    entry of a federated trust domain's bundle - registered for THAT trust domain. -/
 theorem resolved_roots_origin {src : List (String × PoolSrc)} {pools : List (String × List String)}
     (h : resolvePools src = some pools) (td : String) (l : List String) (hp : (td, l) ∈ pools) :
     (td, PoolSrc.roots l) ∈ src ∨
@@ -636,6 +674,7 @@ theorem resolved_roots_origin {src : List (String × PoolSrc)} {pools : List (St
   | cons e rest ih =>
     obtain ⟨td', s⟩ := e
     cases s with
+    | unreachable => simp [resolvePools] at h
     | roots l' =>
       simp only [resolvePools] at h
       cases hr : resolvePools rest with
@@ -669,14 +708,15 @@ theorem resolved_roots_origin {src : List (String × PoolSrc)} {pools : List (St
             · exact Or.inl (List.mem_cons_of_mem _ h1)
             · exact Or.inr ⟨keys, List.mem_cons_of_mem _ h1, h2⟩
 
-/-- One refused bundle: no verifier, no server. -/
-theorem refused_bundle_no_server (pre post : List (String × PoolSrc)) (td : String) (keys : List BundleKey)
-    (h : bundleRoots keys = none) : resolvePools (pre ++ (td, .bundle keys) :: post) = none := by
+/-- An endpoint that cannot be fetched (no URL, no 200 within the retries) fails the whole retrieval. -/
+theorem unreachable_endpoint_fails (pre post : List (String × PoolSrc)) (td : String) :
+    resolvePools (pre ++ (td, .unreachable) :: post) = none := by
   induction pre with
-  | nil => simp [resolvePools, h]
+  | nil => simp [resolvePools]
   | cons e rest ih =>
     obtain ⟨td', s⟩ := e
     cases s with
+    | unreachable => simp [resolvePools]
     | roots l => simp [resolvePools, ih]
     | bundle k =>
       simp only [List.cons_append, resolvePools]
@@ -684,9 +724,26 @@ theorem refused_bundle_no_server (pre post : List (String × PoolSrc)) (td : Str
       · rfl
       · simp [ih]
 
-/-- Client certificates of a federated trust domain, end of the chain: the root that validates the peer is
-    registered for the trust domain of its URI SAN, and if that trust domain is configured only through
-    a bundle endpoint, the root is the single certificate of an X.509-SVID entry of that bundle. -/
+/-- One refused bundle fails the whole retrieval (a caller that registers the result gets no verifier). -/
+theorem refused_bundle_no_server (pre post : List (String × PoolSrc)) (td : String) (keys : List BundleKey)
+    (h : bundleRoots keys = none) : resolvePools (pre ++ (td, .bundle keys) :: post) = none := by
+  induction pre with
+  | nil => simp [resolvePools, h]
+  | cons e rest ih =>
+    obtain ⟨td', s⟩ := e
+    cases s with
+    | unreachable => simp [resolvePools]
+    | roots l => simp [resolvePools, ih]
+    | bundle k =>
+      simp only [List.cons_append, resolvePools]
+      split
+      · rfl
+      · simp [ih]
+
+/-- (Conditional on a wiring that /repo does not have today: IF the roots retrieved from bundle endpoints
+    were registered with the verifier, as the harness does.)  The root that validates a peer is registered for
+    the trust domain of its URI SAN, and if that trust domain is configured only through a bundle endpoint,
+    the root is the single certificate of an X.509-SVID entry of that bundle. -/
 theorem tls_federated_root_is_x509_svid {src : List (String × PoolSrc)} {pools : List (String × List String)}
     {peer : Option (PLeaf × List CACert)} {c : Caller}
     (hres : resolvePools src = some pools) (h : tlsCertAuthenticate pools peer = some (.ok c)) :
